@@ -30,7 +30,7 @@ impl Task {
     fn entry(&self) -> String {
         match self {
             Task::Hash { id, .. } => id.name(),
-            Task::Cipher { ty, data, .. } => format!("{}-{}", ty, if data.len() >= 256 { "wide" } else { "narrow" }),
+            Task::Cipher { ty, data, .. } => format!("{}-{}", ty, if data.len() >= 4096 { "bulk" } else if data.len() >= 256 { "wide" } else { "narrow" }),
             Task::Tf { nb, .. } => format!("Threefish{}", nb * 8),
         }
     }
@@ -121,18 +121,30 @@ fn entry_tasks(r: &mut Rng) -> Vec<Task> {
         v.push(make_cipher(r, "XChaCha8", 260));
         return v;
     }
+    // one trial in three is a "bulk" trial: requests of several KiB per call, so that code paths
+    // reserved for large inputs (and anything they share between threads) run concurrently too
+    let bulk = r.below(3) == 0;
+    let hl = |n: u64| if bulk { 12 * n } else { n };
     for bits in [224u32, 256, 384, 512] {
-        v.push(make_hash(r, h(Fam::Groestl, bits), 400));
-        v.push(make_hash(r, h(Fam::Blake, bits), 400));
+        v.push(make_hash(r, h(Fam::Groestl, bits), hl(400)));
+        v.push(make_hash(r, h(Fam::Blake, bits), hl(400)));
     }
-    v.push(make_hash(r, h(Fam::Jh, 256), 300));
-    v.push(make_hash(r, h(Fam::Jh, 512), 300));
-    v.push(make_hash(r, h(Fam::Skein, 512), 300));
-    v.push(make_hash(r, h(Fam::Skein, 1024), 300));
-    v.push(make_cipher(r, "ChaCha20", 100));
-    v.push(make_cipher(r, "ChaCha8", 700));
-    v.push(make_cipher(r, "Ietf", 300));
-    v.push(make_cipher(r, "XChaCha12", 64));
+    v.push(make_hash(r, h(Fam::Jh, 256), hl(300)));
+    v.push(make_hash(r, h(Fam::Jh, 512), hl(300)));
+    v.push(make_hash(r, h(Fam::Skein, 512), hl(300)));
+    v.push(make_hash(r, h(Fam::Skein, 1024), hl(300)));
+    if bulk {
+        v.push(make_cipher(r, "ChaCha20", 4096));
+        v.push(make_cipher(r, "ChaCha8", 16384 + 700));
+        v.push(make_cipher(r, "Ietf", 8192 + 17));
+        v.push(make_cipher(r, "XChaCha12", 5000));
+        v.push(make_cipher(r, "ChaCha12", 65536));
+    } else {
+        v.push(make_cipher(r, "ChaCha20", 100));
+        v.push(make_cipher(r, "ChaCha8", 700));
+        v.push(make_cipher(r, "Ietf", 300));
+        v.push(make_cipher(r, "XChaCha12", 64));
+    }
     v.push(make_tf(r, 32));
     v.push(make_tf(r, 128));
     v
@@ -300,7 +312,7 @@ fn trial_interleave(cx: &mut Ctx, seed: u64) {
     cx.log.class(&format!("interleave/instances={}", k));
     for _ in 0..steps {
         let i = r.below(k as u64) as usize;
-        let n = r.below(if cfg!(miri) { 70 } else { 300 }) as usize;
+        let n = if !cfg!(miri) && r.below(16) == 0 { 4096 + r.below(6000) as usize } else { r.below(if cfg!(miri) { 70 } else { 300 }) as usize };
         let data = r.bytes(n);
         cx.log.eval(1);
         match &mut insts[i] {
